@@ -7,12 +7,16 @@ import (
 	"sort"
 	"time"
 
+	"0chain.net/chaincore/chain"
 	cstate "0chain.net/chaincore/chain/state"
 	"0chain.net/chaincore/smartcontract"
+	"0chain.net/chaincore/state"
 	"0chain.net/chaincore/transaction"
 	"0chain.net/core/common"
 	"0chain.net/core/config"
+	"github.com/0chain/common/core/currency"
 	"github.com/0chain/common/core/statecache"
+	"github.com/0chain/common/core/util"
 
 	"verif/sim"
 )
@@ -56,6 +60,8 @@ type Runner struct {
 	Blocks  int
 	SaveAll bool
 	Plan    *sim.Plan
+	// AllowPoke enables the "poke" op (C05: balances near 2^64 written directly into the block trie).
+	AllowPoke bool
 }
 
 func NewRunner(w *World) *Runner {
@@ -284,6 +290,28 @@ func (r *Runner) Step(st sim.Step) bool {
 		cp.OutputHash = ""
 		w.Tr.Fault("replay_applied_txn")
 		r.Submit(cp)
+	case "poke":
+		// boundary state outside what a conserving history can reach (C05 only):
+		// an account of the block under assembly is given a balance within
+		// I[1] units of 2^64-1, written straight into the block trie
+		if !r.AllowPoke {
+			return true
+		}
+		r.EnsureBlock()
+		id, _ := w.Account(st.A)
+		s, err := chain.GetStateById(r.BC.State, id)
+		if err != nil || s == nil {
+			s = &state.State{}
+		}
+		s.Balance = currency.Coin(math.MaxUint64 - uint64(st.Int(0, 10)))
+		if _, err := r.BC.State.Insert(util.Path(id), s); err == nil {
+			if _, err := w.Ix.Load(r.BC.State.GetNodeDB(), r.BC.State.GetRoot(), nil); err != nil {
+				panic(err)
+			}
+			w.Poked = true
+			w.Tr.Fault("balance_near_uint64_max")
+			w.Tr.Event("poke account=%d below-max=%d", st.A, st.Int(0, 10))
+		}
 	case "block":
 		r.EnsureBlock()
 		r.EndBlock(st.Int(1, 0) != 0)
